@@ -46,8 +46,10 @@ def gen_records(rng, ann, n):
 
 def api_touch(rec, rng):
     """Replace the value of some list-valued columns by lists built directly from element values
-    (trailing / leading / inner null members, single elements), as the API allows."""
+    (trailing / leading / inner null members, single elements), as the API allows.
+    -> the edits made: [[column name, [encoded element values]], ...] (see apply_edits)."""
     import maflib.column_types as CT
+    edits = []
     for col in list(rec.values()):
         if col is None or not isinstance(col, CT.SequenceOfValuesColumn) or rng.random() < 0.5:
             continue
@@ -64,27 +66,72 @@ def api_touch(rec, rng):
         else:
             vals = [rng.choice(["a", "b c", "x.y", "7"]) for _ in range(rng.randrange(1, 4))]
         col.value = vals
-    return rec
+        edits.append([col.key, [enc_val(v) for v in vals]])
+    return edits
+
+
+def apply_edits(rec, edits):
+    """Redo the edits api_touch made (replay): the same list values assigned to the same columns."""
+    import maflib.column_types as CT
+    for key, vals in edits:
+        try:
+            col = rec[key]
+        except KeyError:
+            col = None
+        if col is None:
+            continue
+        ecls = col.__column_class__() if isinstance(col, CT.SequenceOfValuesColumn) else None
+        out = []
+        for v in vals:
+            if v.get("t") == "enum" and ecls is not None and issubclass(ecls, CT.EnumColumn):
+                out.append(ecls.__enum_class__()[v["m"]])
+            else:
+                out.append(impl.dec_val(v))
+        col.value = out
+
+
+class Toucher:
+    """API edits of the records offered to the writer: drawn from `rng` (and logged) in a run, or the
+    stored ones (per record, in order) in a replay."""
+
+    def __init__(self, rng=None, stored=None):
+        self.rng, self.stored, self.log = rng, stored, []
+
+    def __call__(self, k, rec):
+        if self.rng is not None:
+            self.log.append(api_touch(rec, self.rng))
+        else:
+            edits = self.stored[k] if k < len(self.stored) else []
+            apply_edits(rec, edits)
+            self.log.append(edits)
+
+
+DERIVED_FROM = {"gdc-1.0.0-public": "gdc-1.0.0-protected", "gdc-2.0.0-aliquot-merged-masked": "gdc-2.0.0-aliquot-merged"}
 
 
 def derived_header(rng, ann):
     """A header obtained from a reader of a *protected* file and edited in place to name another layout."""
+    if not DERIVED_FROM.get(ann):
+        return None
+    how = rng.choice(["inplace", "setitem"])
+    h, lines = make_derived_header(ann, how)
+    return h, lines, how
+
+
+def make_derived_header(ann, how):
     from maflib.header import MafHeader, MafHeaderAnnotationSpecRecord
     from maflib.reader import MafReader
-    src = {"gdc-1.0.0-public": "gdc-1.0.0-protected", "gdc-2.0.0-aliquot-merged-masked": "gdc-2.0.0-aliquot-merged"}.get(ann)
-    if not src:
-        return None
+    src = DERIVED_FROM[ann]
     names = impl.scheme_by_annotation(src).column_names()
     reader = MafReader(lines=["#version gdc-1.0.0", "#annotation.spec " + src, "#center x", "\t".join(names)])
     reader.header().validate()
     h = MafHeader.from_reader(reader)
     h.validate()
-    how = rng.choice(["inplace", "setitem"])
     if how == "inplace":
         h["annotation.spec"].value = ann
     else:
         h["annotation.spec"] = MafHeaderAnnotationSpecRecord(value=ann)
-    return h, ["#version gdc-1.0.0", "#annotation.spec " + ann, "#center x"], how
+    return h, ["#version gdc-1.0.0", "#annotation.spec " + ann, "#center x"]
 
 
 def write_file(channel, header_lines, recs, scheme, names, mode, tmp, header_obj=None, touch=None):
@@ -103,10 +150,10 @@ def write_file(channel, header_lines, recs, scheme, names, mode, tmp, header_obj
         w = MafWriter.from_fd(buf, h, validation_stringency=mode)
     else:
         w = MafWriter.from_path(path, h, validation_stringency=mode)
-    for line in recs:
+    for k, line in enumerate(recs):
         rec = MafRecord.from_line(line, scheme=scheme, column_names=names, validation_stringency=VS.Silent)
         if touch is not None:
-            rec = api_touch(rec, touch)
+            touch(k, rec)
         written.append((str(rec), [enc_val(v) for v in rec.column_values()]))
         w += rec
     w.close()
@@ -134,9 +181,99 @@ def read_back(channel, text, path, mode):
     return hdr, rd.scheme().column_names() if rd.scheme() else None, recs, rd
 
 
-def run(ctx):
+NO_SCHEME_NAMES = ["Hugo_Symbol", "Chromosome", "Start_Position", "End_Position", "c5", "c6"]
+
+
+def eval_roundtrip(case, tmp, toucher=None):
+    """One case on the implementation: write, read back, compare, write again (the property's oracle).
+
+    case = {"scheme": annotation or None, "header": header lines, "lines": the generated data lines,
+            "channel": plain|gz|handle, "derived": None|"inplace"|"setitem" (header taken from a reader of the protected
+            file and edited to name `scheme`), "edits": None or the API edits per record}.
+    `toucher` draws (run) or re-applies (replay) the API edits; case["edits"] is filled in with what was applied."""
     from maflib.header import MafHeader
+    from maflib.record import MafRecord
     from maflib.validation import ValidationStringency as VS
+    ann, channel, header_lines = case["scheme"], case["channel"], case["header"]
+    scheme = impl.scheme_by_annotation(ann) if ann else None
+    names = None if ann else NO_SCHEME_NAMES
+    mode = VS.Strict if ann else VS.Silent
+    # the records offered to the writer: parsed from generated lines; their text is what must come back
+    recs = [str(MafRecord.from_line(l, scheme=scheme, column_names=names, validation_stringency=VS.Silent))
+            for l in case["lines"]]
+    where = {"header": header_lines, "scheme": ann, "records": [r[:120] for r in recs], "channel": channel}
+    hobj = None
+    if case.get("derived"):
+        hobj, _lines = make_derived_header(ann, case["derived"])
+        where["header"] = header_lines
+        where["header_source"] = "from_reader + %s edit of annotation.spec" % case["derived"]
+    e = {"failures": [], "status": "done", "where": where, "recs": recs, "names": names, "text": None}
+    fails = e["failures"]
+
+    def fail(**kw):
+        fails.append(dict(where, case=dict(case, edits=list(toucher.log) if toucher is not None else None), **kw))
+    try:
+        text, path = write_file(channel, header_lines, recs, scheme, names, mode, tmp, header_obj=hobj, touch=toucher)
+        if toucher is not None:
+            recs = e["recs"] = [t for t, _v in write_file.last_written]
+            where["records"] = [r[:120] for r in recs]
+            where["api_values"] = True
+    except Exception as x:  # noqa
+        # not accepted by the writer: outside the property (must be the format exception though)
+        e["status"] = "writer-refused: " + exc_name(x)
+        if not exc_name(x).startswith("MafFormatException"):
+            fail(what="writing failed with %s" % exc_name(x), kind="write-exception")
+        return e
+    e["text"] = text
+    try:
+        hdr, cols, got, rd = read_back(channel, text, path, mode)
+    except Exception as x:  # noqa
+        e["status"] = "read-back failed: " + exc_name(x)
+        fail(what="reading the written file back failed with %s" % exc_name(x), kind="read-back", text=text[:300])
+        return e
+    e["read"] = {"header": hdr, "columns": cols, "records": [str(r) for r in got]}
+    h0 = MafHeader.from_lines(header_lines, validation_stringency=VS.Silent)
+    if hdr != [(k, str(h0[k])) for k in h0]:
+        fail(what="header pragmas differ after the round trip", kind="header",
+             expected=[(k, str(h0[k])) for k in h0], got=hdr)
+    want_cols = scheme.column_names() if scheme else (names if recs else None)
+    if cols != want_cols:
+        fail(what="column-name line differs after the round trip", kind="columns", expected=want_cols, got=cols)
+    if [str(r) for r in got] != recs:
+        fail(what="records differ (text or order) after the round trip", kind="records",
+             expected=recs, got=[str(r) for r in got])
+    elif scheme:
+        for (line, a), r in zip(write_file.last_written, got):
+            b = [enc_val(v) for v in r.column_values()]
+            if any(not py_eq(x, y) and not (x.get("t") == "float" and x["v"] == "nan") for x, y in zip(a, b)):
+                fail(what="typed values differ after the round trip", kind="values")
+                break
+    if rd.validation_errors and mode == VS.Strict:
+        fail(what="re-reading reported validation errors", kind="reread-errors")
+    # writing the re-read content again is byte-identical
+    try:
+        text2, _p = write_file(channel, [s for _k, s in hdr], [str(r) for r in got], scheme, names, mode, tmp)
+        if text2 != text:
+            fail(what="writing the re-read content again is not byte-identical", kind="rewrite",
+                 first=text[:200], second=text2[:200])
+    except Exception as x:  # noqa
+        fail(what="re-writing failed with %s" % exc_name(x), kind="rewrite")
+    return e
+
+
+def model_req(ann, header_lines, recs, names):
+    """writer.run request for the model: the same header and records through a caller handle."""
+    fields = [p for l in recs for p in l.split("\t")]
+    ops = [{"k": "write", "rec": {"parse": ({"line": l, "scheme": ann} if ann else {"line": l, "names": names})}} for l in recs] + [{"k": "close"}]
+    return {"op": "writer.run", "header_lines": header_lines, "mode": "Strict" if ann else "Silent", "assume_sorted": True,
+            "ops": ops, "floats": float_table(fields)}
+
+
+def model_text(m):
+    return m["steps"][-1]["out"] if "steps" in m and m["steps"] else m.get("init_out")
+
+
+def run(ctx):
     out = Outcome()
     out.rule = ("headers over the pragma grammar (inner blanks, odd characters, the special keys) x recognised layouts (Strict) or scheme-less column sets (Silent) x 0-4 accepted records "
                 "(empty trailing fields, null spellings, list- and enum-valued columns) x three channels (plain path, .gz path, caller handle); write, read back, write again; "
@@ -147,70 +284,26 @@ def run(ctx):
         for _ in range(ctx.scale(150, 2500)):
             ann = rng.choice([None, "gdc-1.0.0", "gdc-1.0.0-public", "gdc-1.0.0-public", "gdc-2.0.0-aliquot-merged-masked", "gdc-1.0.0-genie"])
             header_lines = gen_header(rng, ann)
-            scheme = impl.scheme_by_annotation(ann) if ann else None
-            names = None if ann else ["Hugo_Symbol", "Chromosome", "Start_Position", "End_Position", "c5", "c6"]
-            # the records offered to the writer: parsed from generated lines; their text is what must come back
-            from maflib.record import MafRecord as _MR
-            recs = [str(_MR.from_line(l, scheme=scheme, column_names=names, validation_stringency=VS.Silent))
-                    for l in gen_records(rng, ann, rng.randrange(0, 5))]
-            mode = VS.Strict if ann else VS.Silent
+            lines = gen_records(rng, ann, rng.randrange(0, 5))
             channel = rng.choice(CHANNELS)
             out.evaluations += 1
-            where = {"header": header_lines, "scheme": ann, "records": [r[:120] for r in recs], "channel": channel}
-            hobj, how = None, None
+            how = None
             if ann in ("gdc-1.0.0-public", "gdc-2.0.0-aliquot-merged-masked") and rng.random() < 0.5:
                 dh = derived_header(rng, ann)
                 if rng.random() < 0.5:
-                    recs = []          # a header-only file
+                    lines = []          # a header-only file
                 if dh:
-                    hobj, header_lines, how = dh
-                    where["header"] = header_lines
-                    where["header_source"] = "from_reader + %s edit of annotation.spec" % how
-            touch = rng if (ann and rng.random() < 0.4) else None
-            try:
-                text, path = write_file(channel, header_lines, recs, scheme, names, mode, tmp, header_obj=hobj, touch=touch)
-                if touch is not None:
-                    recs = [t for t, _v in write_file.last_written]
-                    where["records"] = [r[:120] for r in recs]
-                    where["api_values"] = True
-            except Exception as e:  # noqa
-                # not accepted by the writer: outside the property (must be the format exception though)
-                if not exc_name(e).startswith("MafFormatException"):
-                    out.failures.append(dict(where, what="writing failed with %s" % exc_name(e), kind="write-exception"))
+                    _hobj, header_lines, how = dh
+            toucher = Toucher(rng=rng) if (ann and rng.random() < 0.4) else None
+            case = {"scheme": ann, "header": header_lines, "lines": lines, "channel": channel, "derived": how, "edits": None}
+            e = eval_roundtrip(case, tmp, toucher)
+            out.failures += e["failures"]
+            if e["text"] is None:
                 out.distribution["writer-refused"] += 1
                 continue
-            try:
-                hdr, cols, got, rd = read_back(channel, text, path, mode)
-            except Exception as e:  # noqa
-                out.failures.append(dict(where, what="reading the written file back failed with %s" % exc_name(e), kind="read-back", text=text[:300]))
+            if "read" not in e:
                 continue
-            h0 = MafHeader.from_lines(header_lines, validation_stringency=VS.Silent)
-            if hdr != [(k, str(h0[k])) for k in h0]:
-                out.failures.append(dict(where, what="header pragmas differ after the round trip", kind="header",
-                                         expected=[(k, str(h0[k])) for k in h0], got=hdr))
-            want_cols = scheme.column_names() if scheme else (names if recs else None)
-            if cols != want_cols:
-                out.failures.append(dict(where, what="column-name line differs after the round trip", kind="columns", expected=want_cols, got=cols))
-            if [str(r) for r in got] != recs:
-                out.failures.append(dict(where, what="records differ (text or order) after the round trip", kind="records",
-                                         expected=recs, got=[str(r) for r in got]))
-            elif scheme:
-                from maflib.record import MafRecord
-                for (line, a), r in zip(write_file.last_written, got):
-                    b = [enc_val(v) for v in r.column_values()]
-                    if any(not py_eq(x, y) and not (x.get("t") == "float" and x["v"] == "nan") for x, y in zip(a, b)):
-                        out.failures.append(dict(where, what="typed values differ after the round trip", kind="values"))
-                        break
-            if rd.validation_errors and mode == VS.Strict:
-                out.failures.append(dict(where, what="re-reading reported validation errors", kind="reread-errors"))
-            # writing the re-read content again is byte-identical
-            try:
-                text2, _p = write_file(channel, [s for _k, s in hdr], [str(r) for r in got], scheme, names, mode, tmp)
-                if text2 != text:
-                    out.failures.append(dict(where, what="writing the re-read content again is not byte-identical", kind="rewrite",
-                                             first=text[:200], second=text2[:200]))
-            except Exception as e:  # noqa
-                out.failures.append(dict(where, what="re-writing failed with %s" % exc_name(e), kind="rewrite"))
+            where, recs, text = e["where"], e["recs"], e["text"]
             out.distribution["channel:" + channel] += 1
             if recs:
                 out.nontrivial.add(repr(where))
@@ -218,16 +311,13 @@ def run(ctx):
                 out.sample({"header": header_lines, "scheme": ann, "channel": channel, "n_records": len(recs), "bytes": len(text)})
             # correspondence: the model writes the same bytes and reads them back the same way
             if channel == "handle" and len(reqs) < ctx.scale(60, 600):
-                fields = [p for l in recs for p in l.split("\t")]
-                ops = [{"k": "write", "rec": {"parse": ({"line": l, "scheme": ann} if ann else {"line": l, "names": names})}} for l in recs] + [{"k": "close"}]
-                reqs.append(({"op": "writer.run", "header_lines": header_lines, "mode": "Strict" if ann else "Silent", "assume_sorted": True,
-                              "ops": ops, "floats": float_table(fields)}, text))
+                reqs.append((model_req(ann, header_lines, recs, e["names"]), text))
     mo = ctx.driver.run([r for r, _ in reqs])
     for (r, text), m in zip(reqs, mo):
         if has_unmodelled(m):
             out.unmodelled += 1
             continue
-        mt = m["steps"][-1]["out"] if "steps" in m and m["steps"] else m.get("init_out")
+        mt = model_text(m)
         if "init_exc" in m or mt != text:
             fields = [p for o in r["ops"] if o["k"] == "write" for p in o["rec"]["parse"]["line"].split("\t")]
             if any(colcases.dontcare_numeric(p) or colcases.dontcare_uuid(p) for f in fields for p in [f] + f.split(";")):
@@ -239,4 +329,49 @@ def run(ctx):
 
 def search(ctx):
     return run(ctx)
+
+
+# ------------------------------------------------------------------ replay
+def _short(x, n=300):
+    import json
+    t = x if isinstance(x, str) else json.dumps(x, default=str, ensure_ascii=True)
+    return t if len(t) <= n else t[:n] + "... (%d chars)" % len(t)
+
+
+def replay_case(ctx, failure):
+    """Re-evaluate the stored case (header, generated lines, channel, header derivation, API edits) on the current
+    implementation; the failures it produces now ([] = it round-trips; None = inputs not stored: regenerate)."""
+    case = failure.get("case")
+    if not isinstance(case, dict) or any(k not in case for k in ("scheme", "header", "lines", "channel", "derived", "edits")):
+        return None
+    ann = case["scheme"]
+    if ann and impl.scheme_by_annotation(ann) is None:
+        return None
+    toucher = Toucher(stored=case["edits"]) if case["edits"] is not None else None
+    with tempfile.TemporaryDirectory() as tmp:
+        e = eval_roundtrip(dict(case), tmp, toucher)
+    print("replay C02: %s writer (%s mode) on channel '%s', header %s%s, %d record(s) parsed from the stored lines%s"
+          % (ann or "scheme-less", "Strict" if ann else "Silent", case["channel"], _short(case["header"], 200),
+             " (taken from a reader of the protected file, annotation.spec edited: %s)" % case["derived"] if case["derived"] else "",
+             len(case["lines"]),
+             ", %d list value(s) assigned through the API" % sum(len(x) for x in case["edits"]) if case["edits"] is not None else ""))
+    for r in e["recs"]:
+        print("  offered: %s" % _short(r, 200))
+    print("  implementation: %s" % (e["status"] if e["text"] is None or "read" not in e else
+                                    "wrote %d chars; read back %d pragma(s), %s column names, %d record(s)"
+                                    % (len(e["text"]), len(e["read"]["header"]),
+                                       len(e["read"]["columns"]) if e["read"]["columns"] is not None else "no", len(e["read"]["records"]))))
+    if e["text"] is not None:
+        print("  written: %s" % _short(e["text"], 300))
+    if case["channel"] == "handle" and e["text"] is not None:
+        # the kind of case the module compares with the model
+        m = ctx.driver.run([model_req(ann, case["header"], e["recs"], e["names"])])[0]
+        if has_unmodelled(m):
+            print("  model: outside the model")
+        else:
+            mt = model_text(m)
+            print("  model: %s" % ("writes the same text" if "init_exc" not in m and mt == e["text"] else
+                                   "DIFFERS: %s" % _short(m.get("init_exc") or mt, 300)))
+    print("  oracle: %d failure(s)%s" % (len(e["failures"]), "".join("\n    - " + x["what"] for x in e["failures"])))
+    return e["failures"]
 
